@@ -69,6 +69,7 @@ type Run struct {
 	mergedDistinct int
 	added          map[string]bool
 	cleanup        []func()
+	internalError  string
 }
 
 var (
@@ -342,7 +343,17 @@ func (r *Run) Finish() {
 	if v > 0 {
 		os.Exit(1)
 	}
+	if r.internalError != "" {
+		Fatal("%s", r.internalError)
+	}
 	os.Exit(0)
+}
+
+// InternalError records an internal problem: the run ends with exit status 2 unless a violation was found.
+func (r *Run) InternalError(format string, a ...any) {
+	r.mu.Lock()
+	r.internalError += " " + fmt.Sprintf(format, a...) + ";"
+	r.mu.Unlock()
 }
 
 // Fatal aborts with an internal error (never a VIOLATION).
